@@ -14,6 +14,7 @@ import Pandora.Proofs.C17Path
 import Pandora.Proofs.C17Subst
 import Pandora.Proofs.C17Seq
 import Pandora.Proofs.C17Valid
+import Pandora.Proofs.C17R6
 import Pandora.Spec.C17
 
 namespace Pandora.Props.C17
@@ -1176,5 +1177,161 @@ example :
   decide
 
 end Examples
+
+/-! ## round 6 -/
+
+/-- **Variable names are case-sensitive: a case twin is not the variable.** `${env:NAME}` is the value of the variable
+whose name IS `NAME` (the first such entry of the environment): the lookup fails exactly when no variable has that very
+name — whatever else is set, in particular a variable whose name differs from `NAME` in letter case only (`TARGET` for
+`${env:target}`, `http_proxy` / `HTTP_PROXY`) — and the placeholder is then an error in every scalar field (and, by
+`C17_placeholder_missing`, at `interface{}` and plugin positions; by `C17_nested_error` of the whole configuration). -/
+theorem C17_env_exact (env : Env) (name : Str) :
+    (lookupEnv env name = none ↔ ∀ e ∈ env.vars, e.1 ≠ name) ∧
+    (∀ v, lookupEnv env name = some v ↔
+      ∃ pre post, env.vars = pre ++ (name, v) :: post ∧ ∀ e ∈ pre, e.1 ≠ name) ∧
+    (PlainName name → (∀ e ∈ env.vars, e.1 ≠ name) →
+      ∀ (cast : Kind → Str → Option Val) (fl : Flags) (k : Kind) (d : DVal), (fl.resolveFirst = true ∨ k ≠ .dur) →
+        decodeScalarWith cast fl env k d (.str (placeholder "env".toList name)) = R.fail d .resolve) := by
+  refine ⟨assoc_none_iff env.vars name, fun v => assoc_some_iff env.vars name v, ?_⟩
+  intro hn hno cast fl k d hfl
+  have hnone : lookupEnv env name = none := (assoc_none_iff env.vars name).2 hno
+  have hr : resolveTag env (placeholder "env".toList name) "env".toList name = none := by
+    rw [resolveTag_env, hnone]
+  exact (C17_placeholder_missing cast fl env "env".toList name plainType_env hn hr).1 k d hfl
+
+/-- **A lone placeholder where no scalar is decoded is an error, never a silently different value.** The statement names
+string, numeric, boolean and duration fields; at every OTHER position — an `interface{}` field, a pointer (also a pointer
+to a scalar: the hooks see the pointer type first), a plugin position (`sink: ${env:OUT}`), a struct, a list, a mapping —
+a string that is exactly one resolvable placeholder is refused (`confutil.cast`: "unsupported kind", resp. a type error):
+the configuration is rejected (`C17_nested_error`), nothing is decoded from the resolved text. -/
+theorem C17_placeholder_nonscalar (fl : Flags) (env : Env) (ty name raw : Str) (ht : PlainType ty) (hn : PlainName name)
+    (hr : resolveTag env (placeholder ty name) ty name = some raw) :
+    (∀ d, decode fl env (.any d) (.str (placeholder ty name)) = R.fail d .castkind) ∧
+    (∀ pi alts, (decode fl env (.plugin pi alts) (.str (placeholder ty name))).errs = [.castkind]) ∧
+    (∀ n s, (decode fl env (.ptr n s) (.str (placeholder ty name))).errs = [.castkind]) ∧
+    (∀ fs, (decode fl env (.struct fs) (.str (placeholder ty name))).errs = [.type]) ∧
+    (∀ e d, (decode fl env (.slice e d) (.str (placeholder ty name))).errs = [.type]) ∧
+    (∀ e d, (decode fl env (.map e d) (.str (placeholder ty name))).errs = [.type]) := by
+  have hi := injectOther_lone env ty name raw ht hn hr
+  refine ⟨?_, ?_, ?_, ?_, ?_, ?_⟩
+  · intro d; simp [decode, hi]
+  · intro pi alts; simp [decode, hi, R.fail]
+  · intro n s; rw [decode_ptr_str]; simp [hi, R.fail]
+  · intro fs; simp [decode, R.fail]
+  · intro e d; simp [decode, R.fail]
+  · intro e d; simp [decode, R.fail]
+
+/-- **The decoded value at ANY position of the configuration tree.** Following Go field names, list elements (`#i`) and
+plugin positions — the config a constructed instance was built from, the config the i-th call of a factory hands out —
+from the root, the value found in the decoded root is the decoded value of the sub-configuration at that position
+(`C17_value_at_path` for paths that leave the root struct: `Pools #0 Gun #0 Target`). -/
+theorem C17_value_at_any_path (fl : Flags) (env : Env) (p : List Str) (s : Schema) (cfg : Val) (s' : Schema) (c' : Val)
+    (h : GAt fl env p s cfg s' c') : lookup p (decode fl env s cfg).val = some (decode fl env s' c').val :=
+  value_at_g fl env h
+
+/-- **Placeholders in every field position of every component.** A scalar option (string, bool, any integer width,
+float, duration) that is exactly `${type:name}` — at the root, inside a pool of the pools list, inside the block of a gun /
+provider / aggregator / schedule at any nesting depth — holds, in the config the component is built from, the resolved
+text converted to the option's kind. -/
+theorem C17_placeholder_in_component (env : Env) (p : List Str) (s : Schema) (cfg : Val) (k : Kind) (d : DVal)
+    (ty name raw : Str) (w : DVal) (ht : PlainType ty) (hn : PlainName name)
+    (hp : GAt repoFlags env p s cfg (.scalar k d) (.str (placeholder ty name)))
+    (hr : resolveTag env (placeholder ty name) ty name = some raw) (hw : castExpect k raw = some w) :
+    lookup p (decode repoFlags env s cfg).val = some w := by
+  rw [value_at_g repoFlags env hp]
+  have : decode repoFlags env (.scalar k d) (.str (placeholder ty name)) =
+      decodeScalarWith castTo repoFlags env k d (.str (placeholder ty name)) := by simp [decode, decodeScalar]
+  rw [this, (C17_placeholder_cast env ty name raw k d ht hn hr).1 w hw]
+
+/-- … and a placeholder there that names an unset variable / a missing property rejects the whole configuration
+(composition of `C17_placeholder_missing` with `C17_nested_error`). -/
+theorem C17_placeholder_missing_anywhere (env : Env) (p : List Step) (s : Schema) (cfg : Val) (k : Kind) (d : DVal)
+    (ty name : Str) (ht : PlainType ty) (hn : PlainName name)
+    (hp : At false p s cfg (.scalar k d) (.str (placeholder ty name)))
+    (hr : resolveTag env (placeholder ty name) ty name = none) :
+    (decodeAndValidate repoFlags env s cfg).rejected = true := by
+  apply (C17_nested_error repoFlags env p s cfg _ _ hp _).2
+  left
+  have h := (C17_placeholder_missing castTo repoFlags env ty name ht hn hr).1 k d (Or.inl rfl)
+  have : decode repoFlags env (.scalar k d) (.str (placeholder ty name)) = R.fail d .resolve := by
+    simpa [decode, decodeScalar] using h
+  rw [this]; simp [R.fail]
+
+
+
+section ExamplesR6
+
+private def fld6 (n k : String) (tags : List VTag := []) : FInfo := ⟨n.toList, k.toList, true, false, tags⟩
+
+private def gunFields6 : Fields :=
+  .cons (fld6 "Target" "Target" [.required]) (.scalar .str (.str "default target".toList))
+    (.cons (fld6 "Timeout" "timeout") (.scalar .dur (.int 0))
+    (.cons (fld6 "Workers" "workers") (.scalar (.uint 64) (.uint 4)) .nil))
+private def gunInfo6 : PInfo := ⟨true, .none, false, ["grpc".toList, "http".toList]⟩
+private def gunAlts6 : Alts := .cons "grpc".toList true (.struct gunFields6) .nil
+private def gunPos6 : Schema := .plugin gunInfo6 gunAlts6
+private def poolCfg6 : Fields :=
+  .cons (fld6 "ID" "ID") (.scalar .str (.str []))
+    (.cons (fld6 "NewGun" "gun" [.required]) gunPos6
+    (.cons (fld6 "DiscardOverflow" "discard_overflow") (.scalar .bool (.bool false)) .nil))
+private def rootFields6 : Fields := .cons (fld6 "Pools" "pools" [.required, .dive]) (.slice (.struct poolCfg6) .nil) .nil
+private def gunBlock6 : List (Str × Val) :=
+  [("target".toList, .str "h:1".toList), ("TYPE".toList, .str "grpc".toList), ("timeout".toList, .str "${env:D}".toList)]
+private def poolMap6 : List (Str × Val) := [("id".toList, .str "p".toList), ("gun".toList, .map gunBlock6)]
+private def cfg6 : Val := .map [("pools".toList, .list [.map poolMap6])]
+private def env6 : Env :=
+  ⟨[("TARGET".toList, "h:80".toList), ("Target".toList, "h:81".toList), ("D".toList, "1m30s".toList), ("N".toList, "42".toList),
+    ("S".toList, "hello".toList)], []⟩
+
+/-- C17_env_exact: `TARGET` and `Target` are set, `target` is not: `${env:target}` is an error in a string and in a number
+field, `${env:TARGET}` is `h:80` -/
+example :
+    (∀ e ∈ env6.vars, e.1 ≠ "target".toList) ∧ PlainName "target".toList ∧
+    lookupEnv env6 "target".toList = none ∧ lookupEnv env6 "TARGET".toList = some "h:80".toList ∧
+    (decodeScalar repoFlags env6 .str (.str []) (.str "${env:target}".toList)).errs = [.resolve] ∧
+    (decodeScalar repoFlags env6 (.int 64) (.int 7) (.str "${env:n}".toList)).errs = [.resolve] ∧
+    scalarEq (decodeScalar repoFlags env6 .str (.str []) (.str "${env:TARGET}".toList)).val (.str "h:80".toList) = true := by
+  refine ⟨by decide, ⟨by decide, by decide⟩, by decide, by decide, by decide, by decide, by decide⟩
+
+/-- C17_placeholder_nonscalar: `${env:N}` (set) at an interface{} field, a sink position, a pointer to an int; a text
+with the placeholder inside it is substituted at the interface{} field and below the pointer -/
+example :
+    resolveTag env6 (placeholder "env".toList "N".toList) "env".toList "N".toList = some "42".toList ∧
+    (decode repoFlags env6 (.any .nil) (.str "${env:N}".toList)).errs = [.castkind] ∧
+    (decode repoFlags env6 (.plugin ⟨false, .sink, false, ["file".toList, "stdout".toList]⟩ .nil) (.str "${env:S}".toList)).errs = [.castkind] ∧
+    (decode repoFlags env6 (.ptr true (.scalar (.int 64) (.int 0))) (.str "${env:N}".toList)).errs = [.castkind] ∧
+    (decode repoFlags env6 (.ptr true (.scalar (.int 64) (.int 0))) (.int 42)).errs = [] ∧
+    (decode repoFlags env6 (.ptr true (.scalar .str (.str []))) (.str "x-${env:S}".toList)).errs = [] ∧
+    (decode repoFlags env6 (.ptr true (.scalar .str (.str []))) (.str "${env:UNSET}".toList)).errs = [.resolve] ∧
+    (decode repoFlags env6 (.any .nil) (.str "x-${env:S}".toList)).errs = [] := by decide
+
+/-- C17_value_at_any_path / C17_placeholder_in_component: `pools[0].gun.timeout: ${env:D}` — the config every gun of that
+pool is built from holds 90 s; the sibling option keeps its registered default -/
+example :
+    GAt repoFlags env6 ["Pools".toList, "#0".toList, "NewGun".toList, "#2".toList, "Timeout".toList] (.struct rootFields6) cfg6
+      (.scalar .dur (.int 0)) (.str (placeholder "env".toList "D".toList)) ∧
+    ((castExpect .dur "1m30s".toList).map fun w => scalarEq w (.int 90000000000)) = some true ∧
+    ((lookup ["Pools".toList, "#0".toList, "NewGun".toList, "#2".toList, "Timeout".toList]
+      (decode repoFlags env6 (.struct rootFields6) cfg6).val).map fun v => scalarEq v (.int 90000000000)) = some true ∧
+    ((lookup ["Pools".toList, "#0".toList, "NewGun".toList, "#0".toList, "Workers".toList]
+      (decode repoFlags env6 (.struct rootFields6) cfg6).val).map fun v => scalarEq v (.uint 4)) = some true := by
+  refine ⟨?_, by decide, by decide, by decide⟩
+  exact .field rootFields6 [("pools".toList, .list [.map poolMap6])] (fld6 "Pools" "pools" [.required, .dive])
+    (.slice (.struct poolCfg6) .nil) "pools".toList (.list [.map poolMap6]) _ _ _ (.head _ _ _) rfl rfl
+    (.elem (.struct poolCfg6) .nil [.map poolMap6] "0".toList (.map poolMap6) _ _ _ rfl
+      (.field poolCfg6 poolMap6 (fld6 "NewGun" "gun" [.required]) gunPos6 "gun".toList (.map gunBlock6) _ _ _
+        (.tail _ _ _ _ _ (by decide) (.head _ _ _)) rfl rfl
+        (.call gunInfo6 gunAlts6 gunBlock6 "grpc".toList true gunFields6 "2".toList _ _ _ rfl rfl (by decide) rfl (Or.inl rfl)
+          (.field gunFields6 (dropType gunBlock6) (fld6 "Timeout" "timeout") (.scalar .dur (.int 0)) "timeout".toList
+            (.str "${env:D}".toList) _ _ _ (.tail _ _ _ _ _ (by decide) (.head _ _ _)) rfl rfl (.here _ _)))))
+
+/-- C17_placeholder_missing_anywhere: the same option naming an unset variable rejects the root configuration -/
+example :
+    let bad : Val := .map [("pools".toList, .list [.map [("gun".toList,
+      .map [("type".toList, .str "grpc".toList), ("target".toList, .str "h:1".toList), ("timeout".toList, .str "${env:d}".toList)])]])]
+    (decodeAndValidate repoFlags env6 (.struct rootFields6) bad).rejected = true ∧
+    (decodeAndValidate repoFlags env6 (.struct rootFields6) cfg6).rejected = false := by decide
+
+end ExamplesR6
 
 end Pandora.Props.C17
